@@ -35,6 +35,7 @@ ExtNumOK(e) == e.st = "ok" /\ e.same = 1 /\ e.errc = 1
 ExtRtOK(e) == CASE e.op = "C04" -> e.st # "panic" /\ (e.st = "ok" => (e.szok = 1 /\ e.mto = 1))
                 [] e.op = "C05" -> e.st = "ok" /\ e.x1 = 1
                 [] e.op = "C06" -> e.st # "panic" /\ e.x2 = 1
+                [] e.op = "C08" -> e.st # "panic" /\ e.x2 = 1          \* mutated bytes: no panic; equal whenever both accept
                 [] OTHER -> FALSE
 ExtMisOK(e) == e.has0 = 1 /\ e.geterr = 1 /\ e.seterr = 1 /\ e.unchanged = 1 /\ e.st # "panic"
 
